@@ -94,7 +94,7 @@ class Env:
         shutil.rmtree(self.w, ignore_errors=True)
 
 
-def one_run(sx, h_one, w, cfgtext, opts, uid=0, prep=None, calltimeout=2500, totaltimeout=6000):
+def one_run(sx, h_one, w, cfgtext, opts, uid=0, prep=None, calltimeout=2500, totaltimeout=6000, std_state=None, msglen=None):
     env = Env(w)
     try:
         if prep:
@@ -106,7 +106,7 @@ def one_run(sx, h_one, w, cfgtext, opts, uid=0, prep=None, calltimeout=2500, tot
             open(res, 'w').close()
             os.chmod(res, 0o666)
             os.chmod(w, 0o777)
-        rep = X.run(sx, w, [h_one, ini, res, str(uid), '1', os.path.join(w, 'devlog')], opts=list(opts) + ['--skipalloc', '--calltimeout', str(calltimeout), '--totaltimeout', str(totaltimeout)], timeout=totaltimeout / 1000 + 30)
+        rep = X.run(sx, w, [h_one, ini, res, str(uid), '1', os.path.join(w, 'devlog')] + ([str(msglen)] if msglen else []), env=dict(H.san_env(w), VERIF_STD_STATE=std_state or ''), opts=list(opts) + ['--skipalloc', '--calltimeout', str(calltimeout), '--totaltimeout', str(totaltimeout)], timeout=totaltimeout / 1000 + 30)
         try:
             rep['result'] = json.load(open(res))
         except Exception:
@@ -309,13 +309,27 @@ def run(ck):
     states.append(('file:errlog_on:parent_dir_absent', cfg['file/errlog'], 0, None))
     states.append(('config:unreadable_uid54321', fcfg, 54321, lambda env: None))
     states.append(('file:dev_full', fcfg.replace('@W@/log', '/dev/full'), 0, None))
-    st_res = pmap(lambda s: one_run(sx, v['h_one'], wdir(), s[1], [], uid=s[2], prep=s[3]), states)
+    # the caller's own stdout / stderr as the sink: reader gone (a write raises SIGPIPE), stream-socket peer gone, pipe full and unread
+    for oname in ('stdout', 'stderr'):
+        fdn = '1' if oname == 'stdout' else '2'
+        for stn in ('gone', 'sockgone', 'full'):
+            states.append(('%s:%s_%s' % (oname, 'pipe' if stn != 'sockgone' else 'socket', {'gone': 'reader_gone', 'sockgone': 'peer_gone', 'full': 'full_and_unread'}[stn]),
+                           cfg[oname + '/default'], 0, None, '%s:%s' % (stn, fdn)))
+    states.append(('file:other_output_but_std_streams_gone', fcfg, 0, None, 'gone:12'))
+    big = '[snoopy]\ndatasource_message_max_length = 20000\nlog_message_max_length = 20000\nmessage_format = %%{env:M}\noutput = %s\n'
+    for oname in ('stdout', 'stderr'):
+        fdn = '1' if oname == 'stdout' else '2'
+        states.append(('%s:pipe_unread_with_one_page_of_room:record_3000' % oname, big % oname, 0, None, 'nearly:' + fdn, 3000))
+        states.append(('%s:pipe_unread_with_one_page_of_room:record_10000' % oname, big % oname, 0, None, 'nearly:' + fdn, 10000))
+        states.append(('%s:pipe_read_normally:record_10000' % oname, big % oname, 0, None, None, 10000))
+    states = [s + (None,) * (6 - len(s)) for s in states]
+    st_res = pmap(lambda s: one_run(sx, v['h_one'], wdir(), s[1], [], uid=s[2], prep=s[3], std_state=s[4], msglen=s[5]), states)
     for s, rep in zip(states, st_res):
         evals += 1
         b = verdict(rep)
         outcomes.add(('state', s[0], tuple(b)))
         if b and ('hang_or_spin' in b or any(x.startswith('blocked') for x in b)):
-            rep = one_run(sx, v['h_one'], wdir(), s[1], [], uid=s[2], prep=s[3], calltimeout=12000, totaltimeout=30000)
+            rep = one_run(sx, v['h_one'], wdir(), s[1], [], uid=s[2], prep=s[3], calltimeout=12000, totaltimeout=30000, std_state=s[4], msglen=s[5])
             b = verdict(rep)
         if b:
             ck.violation('C03:%s:sink_state=%s' % ('+'.join(b), s[0]), {'state': s[0], 'config': s[1], 'uid': s[2], 'report': {k: rep.get(k) for k in ('signals', 'exit_code', 'term_sig', 'blocked_call', 'total_timeout', 'result')},
